@@ -7,7 +7,7 @@ VARIABLES n, bad
 TInit == n = 0 /\ bad = {}
 TNext == /\ n < Len(Obs)
          /\ n' = n + 1
-         /\ bad' = W!Judge(Obs[n + 1].sc, Obs[n + 1].obs)
+         /\ bad' = IF Obs[n + 1].kind = "walk" THEN W!JudgeWalk(Obs[n + 1].sc, Obs[n + 1].obs) ELSE W!Judge(Obs[n + 1].sc, Obs[n + 1].obs)
 TSpec == TInit /\ [][TNext]_<<n, bad>>
 Report == bad = {} \/ PrintT(ToJson([id |-> Obs[n].id, bad |-> bad]))
 AllConsumed == TLCGet("stats").diameter - 1 = Len(Obs)
